@@ -39,7 +39,18 @@ class StmtMixin:
                 continue
             if src is None:
                 src = ast.unparse(s)
-            if src == pat:
+            if pat.startswith("assign:"):
+                spec = pat[7:]
+                inloop = spec.endswith("@loop")
+                name = spec[:-5] if inloop else spec
+                hit = isinstance(s, (ast.Assign, ast.AugAssign, ast.AnnAssign)) and any(
+                    isinstance(t, ast.Name) and t.id == name
+                    for t in (s.targets if isinstance(s, ast.Assign) else [s.target]))
+                if hit and inloop and self.loop_depth == 0:
+                    hit = False
+            else:
+                hit = src == pat
+            if hit:
                 self.hook_hits[i] = self.hook_hits.get(i, 0) + 1
                 self.run_ghost(code)
 
@@ -412,6 +423,10 @@ class StmtMixin:
                 r = _root(n.func.value)
                 if r:
                     objs.add((r, None))
+            elif isinstance(n, ast.Call) and isinstance(n.func, ast.Name) and n.func.id == "setattr" and n.args:
+                r = _root(n.args[0])
+                if r:
+                    objs.add((r, None))
         return names, objs
 
     def havoc(self, names, objs, spec):
@@ -515,6 +530,7 @@ class StmtMixin:
             self.pc.append(i.t < n)
             self.bind_target(s.target, mapper(i, self.list_get(it_snapshot, i.t)))
             dec0 = self.spec_eval_value(spec.decreases) if spec.decreases else None
+            self.loop_depth += 1
             try:
                 try:
                     self.exec_block(s.body)
@@ -522,6 +538,8 @@ class StmtMixin:
                     pass
             except BreakSig:
                 return      # leaves the loop with the state at the break
+            finally:
+                self.loop_depth -= 1
             self.envs[-1][iname] = self.wrap(i.t + 1, "int")
             self.prove_inv(spec, "inv-preserve", idx)
             self.check_body_ensures(spec, idx)
@@ -576,6 +594,7 @@ class StmtMixin:
         g = self.truth(self.eval(s.test))
         if self.branch(g, "while%d" % idx):
             dec0 = self.spec_eval_value(spec.decreases) if spec.decreases else None
+            self.loop_depth += 1
             try:
                 try:
                     self.exec_block(s.body)
@@ -583,6 +602,8 @@ class StmtMixin:
                     pass
             except BreakSig:
                 return
+            finally:
+                self.loop_depth -= 1
             self.prove_inv(spec, "inv-preserve", idx)
             self.check_body_ensures(spec, idx)
             if dec0 is not None:
